@@ -1128,6 +1128,11 @@ func (b *bgen) injectScenario(name string, rootDefs, paths M, aux map[string]M, 
 			aux[ap]["definitions"].(M)[en] = sch
 			rootDefs["emptyHolder"] = M{"type": "object", "properties": M{"b": M{"$ref": relRef("", ap) + "#/definitions/" + esc}, "n": M{"type": "integer"}}}
 			paths["/scn/empty"] = M{"get": resp(M{"$ref": "#/definitions/emptyHolder"})}
+			if g.p(0.7) {
+				// … referred to from an operation as well (a second parent for the definition imported as oaiGen)
+				paths["/scn/empty-direct"] = M{"get": resp(M{"$ref": relRef("", ap) + "#/definitions/" + esc})}
+				g.hit("scenario:empty-mangled-names-import-two-parents")
+			}
 			g.hit("scenario:empty-mangled-names-import")
 		}
 		if g.p(0.6) {
